@@ -14,6 +14,21 @@ type big_Float = big.Float
 
 func (u *Unit) execCall(s *State, f *Frame, x *ssa.Call) []*State {
 	c := x.Common()
+	if u.C != nil && len(u.C.CallPre) > 0 && f.Fn == u.Fn {
+		name := ""
+		if c.IsInvoke() {
+			name = c.Method.Name()
+		} else if sf, ok := c.Value.(*ssa.Function); ok {
+			name = sf.Name()
+		}
+		for i, cp := range u.C.CallPre {
+			if cp.Name == name {
+				env := u.specEnv(s, f)
+				oname := fmt.Sprintf("%s#callpre.%s.%d", shortKey(fnKey(u.Fn)), sanitize(name), i+1)
+				u.oblige(s, oname, "callpre", x.Pos(), "at every call of "+name+": "+cp.Text, u.evalBool(env, cp.E))
+			}
+		}
+	}
 	if c.IsInvoke() {
 		return u.execInvoke(s, f, x)
 	}
@@ -414,7 +429,7 @@ func (u *Unit) applyContract(s *State, f *Frame, x ssa.Value, callee *ssa.Functi
 		u.Assumed["trusted contract "+key] = true
 	}
 	u.UsedContracts[key] = true
-	env := &SpecEnv{u: u, s: s, names: map[string]Value{}, cf: u.V.contractFileFor(callee)}
+	env := &SpecEnv{u: u, s: s, names: map[string]Value{}, cf: u.V.contractFileOfKey(key)}
 	for i, p := range callee.Params {
 		if i < len(args) {
 			env.names[p.Name()] = args[i]
@@ -464,57 +479,7 @@ func (u *Unit) applyContract(s *State, f *Frame, x ssa.Value, callee *ssa.Functi
 		} else {
 			eff = u.V.effectsOfCallee(callee, map[*ssa.Function]bool{})
 		}
-		preAlloc := s.Alloc
-		na := u.fresh(s, "alloc", "Int")
-		s.assume(Ge(na, s.Alloc))
-		s.Alloc = na
-		var locs []*specLoc
-		for _, m := range c.Modifies {
-			if loc := u.evalLoc(env, m); loc != nil {
-				locs = append(locs, loc)
-			}
-		}
-		keys := map[string]bool{}
-		if eff.all {
-			for k := range s.Heaps {
-				keys[k] = true
-			}
-		} else {
-			for k := range eff.heaps {
-				keys[k] = true
-			}
-		}
-		for _, l := range locs {
-			keys[l.key] = true
-		}
-		for k := range keys {
-			h, ok := s.Heaps[k]
-			if !ok {
-				continue
-			}
-			nh := u.havocHeap(s, k, h)
-			// frame assumption: pre-existing memory outside the modifies locations is unchanged
-			r := Leaf("r!m", "Int")
-			cond := Lt(r, preAlloc)
-			var partial []*specLoc
-			for _, l := range locs {
-				if l.key == k {
-					cond = And(cond, Not(Eq(r, l.ref)))
-					if l.lo != nil {
-						partial = append(partial, l)
-					}
-				}
-			}
-			s.assume(Forall([]*Term{r}, Implies(cond, Eq(Select(nh, r), Select(h, r))), Select(nh, r)))
-			for _, l := range partial {
-				if strings.HasPrefix(k, "S:") {
-					kk := Leaf("k!m", "Int")
-					s.assume(Forall([]*Term{kk}, Implies(Not(And(Le(l.lo, kk), Lt(kk, l.hi))),
-						Eq(Select(Select(nh, l.ref), kk), Select(Select(h, l.ref), kk))), Select(Select(nh, l.ref), kk)))
-				}
-			}
-			s.Heaps[k] = nh
-		}
+		u.havocPerModifies(s, env, c, eff)
 		if eff.globals || eff.all {
 			for g, t := range s.Globals {
 				if !u.V.isConstGlobal(g) {
@@ -744,10 +709,15 @@ func (u *Unit) applyIfaceContract(s *State, f *Frame, x *ssa.Call, ic *Contract,
 	old := s.snap()
 	if !ic.Pure {
 		eff := &effects{heaps: map[string]bool{}, allocs: true}
-		for _, a := range c.Args {
-			addReachable(a.Type(), eff.heaps, map[string]bool{}, 0)
+		if ic.ModSet {
+			// only what the modifies clause names (plus fresh memory)
+			u.havocPerModifies(s, env, ic, eff)
+		} else {
+			for _, a := range c.Args {
+				addReachable(a.Type(), eff.heaps, map[string]bool{}, 0)
+			}
+			u.havocEffects(s, eff)
 		}
-		u.havocEffects(s, eff)
 	}
 	res := c.Signature().Results()
 	var rvals []Value
@@ -843,5 +813,62 @@ func reachableHeapTypes(t types.Type, out map[string]types.Type, depth int) {
 		}
 	case *types.Array:
 		reachableHeapTypes(u.Elem(), out, depth+1)
+	}
+}
+
+// havocPerModifies: advance the allocation counter, give every heap the callee may touch a fresh
+// value, and assume the frame: memory that existed before the call and is not named by the
+// contract's modifies clause is unchanged.
+func (u *Unit) havocPerModifies(s *State, env *SpecEnv, c *Contract, eff *effects) {
+	preAlloc := s.Alloc
+	na := u.fresh(s, "alloc", "Int")
+	s.assume(Ge(na, s.Alloc))
+	s.Alloc = na
+	var locs []*specLoc
+	for _, m := range c.Modifies {
+		if loc := u.evalLoc(env, m); loc != nil {
+			locs = append(locs, loc)
+		}
+	}
+	keys := map[string]bool{}
+	if eff.all {
+		for k := range s.Heaps {
+			keys[k] = true
+		}
+	} else {
+		for k := range eff.heaps {
+			keys[k] = true
+		}
+	}
+	for _, l := range locs {
+		keys[l.key] = true
+	}
+	for k := range keys {
+		h, ok := s.Heaps[k]
+		if !ok {
+			continue
+		}
+		nh := u.havocHeap(s, k, h)
+		// frame assumption: pre-existing memory outside the modifies locations is unchanged
+		r := Leaf("r!m", "Int")
+		cond := Lt(r, preAlloc)
+		var partial []*specLoc
+		for _, l := range locs {
+			if l.key == k {
+				cond = And(cond, Not(Eq(r, l.ref)))
+				if l.lo != nil {
+					partial = append(partial, l)
+				}
+			}
+		}
+		s.assume(Forall([]*Term{r}, Implies(cond, Eq(Select(nh, r), Select(h, r))), Select(nh, r)))
+		for _, l := range partial {
+			if strings.HasPrefix(k, "S:") {
+				kk := Leaf("k!m", "Int")
+				s.assume(Forall([]*Term{kk}, Implies(Not(And(Le(l.lo, kk), Lt(kk, l.hi))),
+					Eq(Select(Select(nh, l.ref), kk), Select(Select(h, l.ref), kk))), Select(Select(nh, l.ref), kk)))
+			}
+		}
+		s.Heaps[k] = nh
 	}
 }
